@@ -14,7 +14,7 @@ GHOST_METHODS = {
     "_worker_init_fn": ["g_winit", "g_worker_init_fn"], "dispose": ["g_dispose", "g_last_dispose"],
 }
 # written by calling an abstract callable / transform under any name
-GHOST_ANY_CALL = ["g_ncalls", "g_called", "g_called_arg", "g_napplied", "g_applied"]
+GHOST_ANY_CALL = ["g_base_reads", "g_nunzip", "g_unzipped", "g_ncalls", "g_called", "g_called_arg", "g_napplied", "g_applied", "g_fn_calls", "g_fn_ctx"]
 
 
 def _nonneg(st, name, idx):
@@ -44,6 +44,8 @@ class AbsDataset(VAbs):
     """a map-style dataset: len >= 0, item k is an opaque value Item(ds, k)"""
     label = "dataset"
 
+    nullable = False      # may a sample be None?
+
     def __init__(self, name, idx=()):
         self.name, self.idx = name, tuple(idx)
         self.n = _fn(name + "$len", idx, z3.IntSort())
@@ -56,7 +58,12 @@ class AbsDataset(VAbs):
         i = _e.to_int(eng.deref(i, st))
         eng.safety(st, "dataset:index-inbounds", z3.And(-self.n <= i, i < self.n), None, "dataset index out of range")
         j = z3.If(i < 0, i + self.n, i)
-        return VVal(_fn(self.name + "$item", self.idx, ValSort, (j,)))
+        if not eng.spec_depth and "g_base_reads" in st.ghost:
+            st.ghost["g_base_reads"] = VInt(st.ghost["g_base_reads"].t + 1)
+        v = VVal(_fn(self.name + "$item", self.idx, ValSort, (j,)))
+        if self.nullable:
+            return VOpt(_fn(self.name + "$item_is_none", self.idx, z3.BoolSort(), (j,)), v)
+        return v
 
     def hasattr(self, name, st, eng):
         return z3.BoolVal(name in ("worker_init_fn",))
@@ -323,6 +330,67 @@ class AbsSchedule(VAbs):
         raise KeyError(name)
 
 
+Comp = z3.Function("Comp", ValSort, z3.IntSort(), ValSort)          # component j of a jointly loaded value
+
+
+class AbsFusedEntry(VAbs):
+    """one entry of ModeWrapper.fused_to_idxs: either a single mode position (int) or the positions of a fused group (list)"""
+    label = "fused-entry"
+
+    def __init__(self, name, idx=()):
+        self.name, self.idx = name, tuple(idx)
+        self.is_list = _fn(name + "$is_list", idx, z3.BoolSort())
+        self.as_int = _fn(name + "$single", idx, z3.IntSort())
+        self.n = _fn(name + "$nmulti", idx, z3.IntSort())
+
+    def isinstance(self, clsname, st, eng):
+        if clsname == "list":
+            return self.is_list
+        if clsname == "int":
+            return z3.Not(self.is_list)
+        return z3.BoolVal(False)
+
+    def multi(self, j):
+        return VInt(_fn(self.name + "$multi", self.idx, z3.IntSort(), (j,)))
+
+    def iterate(self, st, eng):
+        return VSeq(z3.If(self.n >= 0, self.n, 0), self.multi, INT)
+
+    def length(self, st, eng):
+        return VInt(z3.If(self.n >= 0, self.n, 0))
+
+
+class AbsGetter(VAbs):
+    """a per-item loader of the dataset stack: fn(idx, ctx) -> opaque value Out(entry, idx); calls are counted per entry
+    in g_fn_calls and the ctx object each call received is recorded in g_fn_ctx"""
+    label = "getter"
+
+    def __init__(self, name, idx=()):
+        self.name, self.idx = name, tuple(idx)
+
+    def key(self):
+        return (self.name, self.idx)
+
+    def out(self, k):
+        return VVal(_fn(self.name + "$out", self.idx, ValSort, (k,)))
+
+    def call_method(self, name, args, kwargs, st, eng):
+        if name != "__call__":
+            raise Unsupported(f"getter.{name}")
+        k = _e.to_int(eng.deref(args[0], st))
+        if "g_fn_calls" in st.ghost:
+            st.ghost["g_fn_calls"] = VInt(st.ghost["g_fn_calls"].t + 1)
+        if "g_fn_ctx" in st.ghost and len(args) > 1:
+            c = args[1]
+            st.ghost["g_fn_ctx"] = _upd(st.ghost["g_fn_ctx"], self.idx[0] if self.idx else z3.IntVal(0),
+                                        as_val(c) if isinstance(c, (VRef, VVal)) else VVal(z3.Const("ctx!none", ValSort)))
+        return [(st, self.out(k))]
+
+
+FUSEDENTRY = TAbs(lambda name, idx: AbsFusedEntry(name, idx), "fused-entry")
+GETTER = TAbs(lambda name, idx: AbsGetter(name, idx), "getter")
+
+
 class AbsSharedMap(VAbs):
     """multiprocessing.Manager().dict(): every single operation (in, [], []=, clear) is atomic; values read are equal to
     values written. State lives in ghost g_present / g_val (maps over integer keys). Between any two operations other
@@ -339,20 +407,20 @@ class AbsSharedMap(VAbs):
             return
         m = mode.t
         pres, val = st.ghost["g_present"], st.ghost["g_val"]
-        np_, nv = fresh(TSeq(BOOL), "present_after"), fresh(TSeq(VAL), "val_after")
+        np_, nv = fresh(TSeq(BOOL), "present_after"), fresh(TSeq(val.etype), "val_after")
         k = z3.Int(uid("k"))
         base = st.consts["BaseItem"]
-        bk = base.fn([VInt(k)], {}, st, eng)[0][1].t
+        bk = base.fn([VInt(k)], {}, st, eng)[0][1]
         # guarantee: at every point where others may look, the map invariant holds (our own writes keep it)
         kk = z3.Int(uid("k"))
-        bkk = base.fn([VInt(kk)], {}, st, eng)[0][1].t
+        bkk = base.fn([VInt(kk)], {}, st, eng)[0][1]
         eng.oblige(st, "guarantee:map-invariant-before-interference", "vc",
-                   z3.Implies(z3.And(kk >= 0, pres.elem(kk).t), val.elem(kk).t == bkk), getattr(eng, "cur_call_node", None),
+                   z3.Implies(z3.And(kk >= 0, pres.elem(kk).t), veq(val.elem(kk), bkk)), getattr(eng, "cur_call_node", None),
                    note="every cached entry equals the wrapped dataset's sample whenever another process may observe the map")
-        st.assume(z3.ForAll([k], z3.Implies(z3.And(k >= 0, np_.elem(k).t), nv.elem(k).t == bk)))
-        grow = z3.ForAll([k], z3.Implies(pres.elem(k).t, z3.And(np_.elem(k).t, nv.elem(k).t == val.elem(k).t)))
-        sound = z3.ForAll([k], z3.Implies(np_.elem(k).t, z3.Or(z3.And(pres.elem(k).t, nv.elem(k).t == val.elem(k).t), nv.elem(k).t == bk)))
-        same = z3.ForAll([k], z3.And(np_.elem(k).t == pres.elem(k).t, nv.elem(k).t == val.elem(k).t))
+        st.assume(z3.ForAll([k], z3.Implies(z3.And(k >= 0, np_.elem(k).t), veq(nv.elem(k), bk))))
+        grow = z3.ForAll([k], z3.Implies(pres.elem(k).t, z3.And(np_.elem(k).t, veq(nv.elem(k), val.elem(k)))))
+        sound = z3.ForAll([k], z3.Implies(np_.elem(k).t, z3.Or(z3.And(pres.elem(k).t, veq(nv.elem(k), val.elem(k))), veq(nv.elem(k), bk))))
+        same = z3.ForAll([k], z3.And(np_.elem(k).t == pres.elem(k).t, veq(nv.elem(k), val.elem(k))))
         st.assume(z3.If(m == 0, same, z3.If(m == 1, z3.And(grow, sound), sound)))
         st.ghost["g_present"], st.ghost["g_val"] = np_, nv
 
@@ -393,7 +461,7 @@ class AbsSharedMap(VAbs):
                 k = _e.to_int(e.deref(a[0], s))
                 p = s.ghost["g_present"].elem(k).t
                 d = a[1] if len(a) > 1 else NONEV
-                return ite(p, s.ghost["g_val"].elem(k), d) if isinstance(d, VVal) else VOpt(z3.Not(p), s.ghost["g_val"].elem(k))
+                return ite(p, s.ghost["g_val"].elem(k), d)
             return VFunc("shared.get", f)
         raise KeyError(name)
 
@@ -496,6 +564,13 @@ SCHEDULE = TAbs(lambda name, idx: AbsSchedule(name, idx), "schedule")
 
 SAMPLER = TAbs(lambda name, idx: AbsSampler(name, idx), "sampler")
 DATASET = TAbs(lambda name, idx: AbsDataset(name, idx), "dataset")
+
+
+class _NullableDataset(AbsDataset):
+    nullable = True
+
+
+DATASET_NULLABLE = TAbs(lambda name, idx: _NullableDataset(name, idx), "dataset(nullable samples)")
 CALLABLE = TAbs(lambda name, idx: AbsCallable(name, idx), "callable")
 
 
@@ -567,6 +642,23 @@ def install_spec_builtins(eng):
     def mode_of(args, kwargs, st, eng):
         return VInt(args[0].mode)
     eng.spec_builtins["ModeOf"] = VFunc("ModeOf", mode_of)
+
+    def comp(args, kwargs, st, eng):
+        return VVal(Comp(args[0].t, _e.to_int(args[1])))
+    eng.spec_builtins["CompOf"] = VFunc("CompOf", comp)
+
+    def getter_out(args, kwargs, st, eng):
+        return args[0].out(_e.to_int(args[1]))
+    eng.spec_builtins["Out"] = VFunc("Out", getter_out)
+    eng.spec_builtins["IsList"] = VFunc("IsList", lambda a, k, s, e: VBool(a[0].is_list))
+    eng.spec_builtins["Single"] = VFunc("Single", lambda a, k, s, e: VInt(a[0].as_int))
+    eng.spec_builtins["Multi"] = VFunc("Multi", lambda a, k, s, e: a[0].multi(_e.to_int(a[1])))
+    eng.spec_builtins["NMulti"] = VFunc("NMulti", lambda a, k, s, e: VInt(z3.If(a[0].n >= 0, a[0].n, 0)))
+
+    def has_field(args, kwargs, st, eng):
+        h = st.heap[args[0].oid]
+        return VBool(args[1].s in h.fields)
+    eng.spec_builtins["HasField"] = VFunc("HasField", has_field)
 
     def call_attr(args, kwargs, st, eng):
         f = args[0].getattr(args[1].s, st, eng)
